@@ -5,7 +5,7 @@
 // Bounded: T = u8.  IdSet<T> uses T only through Eq/Hash (and the map stub R5 ignores the
 // hash value), so its behaviour on a history of inserts depends only on the EQUALITY
 // PATTERN of the inserted values.  The harnesses enumerate every equality pattern
-// (restricted-growth string) of histories of a stated length (sets Q3, H3, H4 below) with
+// (restricted-growth string) of histories of a stated length (sets Q2, Q3, H3, L4a-c below) with
 // concrete representative values, then apply the operation under test; queried values
 // are symbolic (any u8).  Concrete shapes are required because CBMC needs > 4 GB as soon as
 // the buffer-switching structure of the set becomes symbolic.
@@ -13,7 +13,7 @@
 // Quick tier (Q3; iterators on the single history [0,1]) shares one history construction
 // between the read-only operations (harness q_readonly; assertion messages carry the tag
 // "[op]" of the obligation they belong to); thorough tier runs one harness per operation
-// over H3 (insert: H4; iterators: Q3).
+// over H3 (insert: H3 + L4a/b/c, i.e. all 24 histories of <= 4 inserts; iterators: Q3).
 //
 // Model (C37: "a map-plus-vector model"): the insertion-ordered vector of distinct
 // values; id = position.
@@ -29,7 +29,7 @@ const FRESH: u8 = 0x55;
 //        triggers a buffer switch and is popped again, three distinct values (two switches)
 //   Q2 = { [0,1,0], [0,1,2] }
 //   H3 = all 9 equality patterns of histories of <= 3 inserts (incl. the empty history)
-//   H4 = all 24 equality patterns of histories of <= 4 inserts
+//   L4a/b/c = the 15 equality patterns of exactly 4 inserts, in three groups of 5 (insert only)
 macro_rules! q3 {
     ($($f:ident),+) => {
         $($f(&[0, 0, 1]); $f(&[0, 1, 0]); $f(&[0, 1, 2]);)+
@@ -49,13 +49,23 @@ macro_rules! h3 {
     };
 }
 
-macro_rules! h4 {
+// the 15 equality patterns of exactly 4 inserts, in three groups (one group per harness:
+// a single harness over all of them needs > 4.5 GB in CBMC)
+macro_rules! l4a {
     ($($f:ident),+) => {
-        $($f(&[]); $f(&[0]); $f(&[0, 0]); $f(&[0, 1]);
-          $f(&[0, 0, 0]); $f(&[0, 0, 1]); $f(&[0, 1, 0]); $f(&[0, 1, 1]); $f(&[0, 1, 2]);
-          $f(&[0, 0, 0, 0]); $f(&[0, 0, 0, 1]); $f(&[0, 0, 1, 0]); $f(&[0, 0, 1, 1]); $f(&[0, 0, 1, 2]);
-          $f(&[0, 1, 0, 0]); $f(&[0, 1, 0, 1]); $f(&[0, 1, 0, 2]); $f(&[0, 1, 1, 0]); $f(&[0, 1, 1, 1]);
-          $f(&[0, 1, 1, 2]); $f(&[0, 1, 2, 0]); $f(&[0, 1, 2, 1]); $f(&[0, 1, 2, 2]); $f(&[0, 1, 2, 3]);)+
+        $($f(&[0, 0, 0, 0]); $f(&[0, 0, 0, 1]); $f(&[0, 0, 1, 0]); $f(&[0, 0, 1, 1]); $f(&[0, 0, 1, 2]);)+
+    };
+}
+
+macro_rules! l4b {
+    ($($f:ident),+) => {
+        $($f(&[0, 1, 0, 0]); $f(&[0, 1, 0, 1]); $f(&[0, 1, 0, 2]); $f(&[0, 1, 1, 0]); $f(&[0, 1, 1, 1]);)+
+    };
+}
+
+macro_rules! l4c {
+    ($($f:ident),+) => {
+        $($f(&[0, 1, 1, 2]); $f(&[0, 1, 2, 0]); $f(&[0, 1, 2, 1]); $f(&[0, 1, 2, 2]); $f(&[0, 1, 2, 3]);)+
     };
 }
 
@@ -393,7 +403,10 @@ fn q_into_iter() {
 }
 
 // ---- thorough tier: one harness per operation
-harness!(t_insert, h4, "reachable: all 24 histories of <= 4 inserts executed", body_insert);
+harness!(t_insert, h3, "reachable: all 9 histories of <= 3 inserts executed", body_insert);
+harness!(t_insert_l4a, l4a, "reachable: histories of 4 inserts, group a", body_insert);
+harness!(t_insert_l4b, l4b, "reachable: histories of 4 inserts, group b", body_insert);
+harness!(t_insert_l4c, l4c, "reachable: histories of 4 inserts, group c", body_insert);
 harness!(t_try_get_id, h3, "reachable: all 9 histories of <= 3 inserts executed", body_try_get_id);
 harness!(t_get_id, h3, "reachable: all 9 histories of <= 3 inserts executed", body_get_id);
 harness!(t_index, h3, "reachable: all 9 histories of <= 3 inserts executed", body_index);
